@@ -3,7 +3,7 @@
    (round trip), C17 (idempotence), C01 (totality) and C06 (output size).
    `is_run l f n` (Spec/CmSpec.v): a MAXIMAL run of exactly n >= 1 bytes f occurs in l. *)
 From Coq Require Import List NArith Bool Strings.String.
-From V Require Import Base.Bytes Base.Res Model.Ast Model.Cm Spec.CmSpec Spec.EscapeSpec Proofs.CmProofs Proofs.CmTotal Proofs.CmUtf8.
+From V Require Import Base.Bytes Base.Res Model.Ast Model.Cm Spec.CmSpec Spec.EscapeSpec Proofs.CmProofs Proofs.CmTotal Proofs.CmUtf8 Proofs.CmWrite.
 Import ListNotations.
 Local Open Scope list_scope.
 
@@ -71,6 +71,13 @@ Print Assumptions CmLeaf_cm_output_utf8.
 Theorem CmLeaf_outc_ascii_only : outc_ok (outc 0%N).
 Proof. exact outc_is_ok. Qed.
 Print Assumptions CmLeaf_outc_ascii_only.
+
+(* modelling device justified: write!(self, "a{}b", x) calls `output` once per piece (Literal, no
+   wrap); the model performs ONE write_all of the concatenation *)
+Theorem CmLeaf_write_all_app : forall width a b s,
+  write_all width (a ++ b) s = write_all width b (write_all width a s).
+Proof. exact write_all_app. Qed.
+Print Assumptions CmLeaf_write_all_app.
 
 (* 6. totality, partial: on trees satisfying the shape clauses K1-K3 of Spec/CmSpec.v (items under
       lists, non-empty code literals, cells under rows / header rows under tables) the model returns
